@@ -8,33 +8,66 @@ import GqlProofs.Lemmas.VarsFixtures
   value nodes are linked to and `defs` the argument definitions of the field / directive.
   Specification: `argValueSpec` / `argSpec` / `argHasValue` (GqlModel/Vars/Spec.lean).
 
-  FULL STATEMENT of C15_total (false of the pinned tree, R15):
+  FULL STATEMENT of C15_total:
       ∀ vdefs defs args vars, ∃ m, argumentMap vdefs (some defs) args vars = .ok m
-  for every field / directive of a document that passed validation.  Validation lets a custom
-  scalar argument carry ANY literal, and `Value.Value` fails on an Int literal beyond int64 / a
-  Float literal beyond float64, which `arg2map` turns into a panic: `C15_total_counterexample`.
-  `C15_total` is proved under the hypothesis that the literals convert (`convertsB`).  Repair that
-  makes the full statement true: make `Value.Value` total (integer beyond int64 → float64, float
-  beyond float64 → ±Inf, no error), or reject such literals in validation (contradicts C08).
+  for every field / directive of a document that passed validation.  It was false of the pinned
+  tree (R15: a custom-scalar argument may carry ANY literal, `Value.Value` failed on an Int literal
+  beyond int64 / a Float literal beyond float64, and `arg2map` turns the error into a panic).
+  REPAIRED: `Value.Value` converts every number literal (integer beyond int64 → the float64 of its
+  text, float beyond float64 → ±Inf), so the only hypothesis left is that the leaves are written as
+  the lexer writes them (`wellLexedB`: Int `-?[0-9]+`, Float `-?[0-9]+(\.[0-9]+)?([eE][+-]?[0-9]+)?`,
+  Boolean `true`/`false`) and that variable defaults are constants — both hold of every parsed
+  document.  `C15_total_syntaxOk` is the same statement under the weaker, model-level hypothesis
+  that `strconv` finds no SYNTAX error in a leaf; `C15_total_needs_wellLexed` shows that a
+  hand-built AST with a malformed leaf (which no parser produces) still panics.
 -/
 open Gql Gql.Fixtures
 
-/-- Under the hypothesis that every literal converts, computing the argument map returns normally. -/
-theorem C15_total (vdefs : List VarDef) (defs : List ArgDef) (args : List Argument) (vars : VarMap)
-    (hargs : ∀ a ∈ args, convertsB a.value = true)
-    (hdefs : ∀ d ∈ defs, ∀ dv, d.default = some dv → convertsB dv = true)
-    (hvd : DefaultsConvert vdefs) :
+/-- Computing the argument map returns normally whenever no Int / Float / Boolean leaf is a syntax
+    error for `strconv` (ranges no longer matter). -/
+theorem C15_total_syntaxOk (vdefs : List VarDef) (defs : List ArgDef) (args : List Argument) (vars : VarMap)
+    (hargs : ∀ a ∈ args, syntaxOkB a.value = true)
+    (hdefs : ∀ d ∈ defs, ∀ dv, d.default = some dv → syntaxOkB dv = true)
+    (hvd : DefaultsSyntaxOk vdefs) :
     ∃ m, argumentMap vdefs (some defs) args vars = .ok m := by
   simp only [argumentMap, arg2map]
   exact arg2mapLoop_ok vdefs args vars hargs hvd defs .nil hdefs
 
-/-- R15: `f(c: 99999999999999999999)` with `c: Custom` panics (and so does `1e999`). -/
-theorem C15_total_counterexample :
+/-- Computing the argument map returns normally for literals as the lexer writes them — whatever
+    their magnitude (no hypothesis on ranges: R15 is repaired). -/
+theorem C15_total (vdefs : List VarDef) (defs : List ArgDef) (args : List Argument) (vars : VarMap)
+    (hargs : ∀ a ∈ args, wellLexedB a.value = true)
+    (hdefs : ∀ d ∈ defs, ∀ dv, d.default = some dv → wellLexedB dv = true)
+    (hvd : DefaultsLexed vdefs) :
+    ∃ m, argumentMap vdefs (some defs) args vars = .ok m :=
+  C15_total_syntaxOk vdefs defs args vars
+    (fun a ha => wellLexed_syntaxOk _ (hargs a ha))
+    (fun d hd dv hdv => wellLexed_syntaxOk _ (hdefs d hd dv hdv))
+    (defaultsLexed_syntaxOk hvd)
+
+/-- R15 repaired (former witness): `f(c: 99999999999999999999)` with `c: Custom` yields the map
+    `{c: float64("99999999999999999999")}` = `{c: 1e20}`. -/
+theorem C15_total_R15_int_returns :
     argumentMap [] (some [argDef "c" (named "Custom")]) [arg "c" (lit .int "99999999999999999999")] .nil
-        = .panic (str "strconv.ParseInt: parsing \"99999999999999999999\": value out of range")
-    ∧ argumentMap [] (some [argDef "c" (named "Custom")]) [arg "c" (lit .float "1e999")] .nil
-        = .panic (str "strconv.ParseFloat: parsing \"1e999\": value out of range") := by
+        = .ok (.cons (str "c") (.float false (str "99999999999999999999")) .nil)
+    ∧ argSpec [] [argDef "c" (named "Custom")] [arg "c" (lit .int "99999999999999999999")] .nil
+        = some (.cons (str "c") (.float false (str "99999999999999999999")) .nil) := by
   constructor <;> rfl
+
+/-- R15 repaired (former witness): `f(c: 1e999)` yields `{c: float64("1e999")}` = `{c: +Inf}`. -/
+theorem C15_total_R15_float_returns :
+    argumentMap [] (some [argDef "c" (named "Custom")]) [arg "c" (lit .float "1e999")] .nil
+        = .ok (.cons (str "c") (.float false (str "1e999")) .nil)
+    ∧ argSpec [] [argDef "c" (named "Custom")] [arg "c" (lit .float "1e999")] .nil
+        = some (.cons (str "c") (.float false (str "1e999")) .nil) := by
+  constructor <;> rfl
+
+/-- The remaining hypothesis is needed: a hand-built `IntValue` node with the text `1x` (no lexer
+    produces it) still makes `arg2map` panic. -/
+theorem C15_total_needs_wellLexed :
+    argumentMap [] (some [argDef "c" (named "Custom")]) [arg "c" (lit .int "1x")] .nil
+        = .panic (str "strconv.ParseInt: parsing \"1x\": invalid syntax") := by
+  rfl
 
 /-- The argument map contains exactly the arguments that have a value. -/
 theorem C15_exact_keys (vdefs : List VarDef) (defs : List ArgDef) (args : List Argument) (vars m : VarMap)
